@@ -12,14 +12,14 @@ RULE = ('histories of 5-12 operations over 3-5 generated documents of the six in
         'set_styles on a previous result, edit a caption of a previous result (style item, node content, node '
         'list, layout, adjust_caption_timing). Every read result is dumped when it is returned and again at the '
         'end of the history (unless it was edited itself); both are compared with the dump of reading that '
-        'single document in pristine child processes under PYTHONHASHSEED 1, 12345 and 777. Non-trivial: >= 3 '
+        'single document in pristine child processes under three PYTHONHASHSEED values drawn per case from a pool of 16. Non-trivial: >= 3 '
         'operations including an edit or a reader reuse.')
 ANCHORS = ['pycaption.base:Caption.__init__', 'pycaption.base:CaptionSet.__init__',
            'pycaption.base:CaptionSet.add_style', 'pycaption.scc:SCCReader.read', 'pycaption.sami:SAMIReader.read',
            'pycaption.dfxp.base:DFXPReader.read', 'pycaption.webvtt:WebVTTReader.read', 'pycaption.srt:SRTReader.read',
            'pycaption.microdvd:MicroDVDReader.read', 'pycaption.dfxp.base:DFXPReader._convert_p_tag_to_caption',
            'pycaption.sami:SAMIReader._translate_lang']
-REQUIRE = {'reads': 300, 'reads_on_reused_reader': 80, 'edits': 80, 'writes_between_reads': 30,
+REQUIRE = {'seed_sweep_reads': 300, 'reads': 300, 'reads_on_reused_reader': 80, 'edits': 80, 'writes_between_reads': 30,
            'results_compared_with_pristine_child': 300, 'results_rechecked_at_end': 200, 'child_processes': 10,
            'reads_scc_reused': 10, 'reads_microdvd_reused': 5, 'reads_of_ill_formed_documents_that_raised': 20, 'reads_of_styled_documents': 20, 'reads_sami_multi_language': 10, 'add_style_then_later_read': 10}
 SHARDS = {'quick': 8, 'thorough': 16}
@@ -100,6 +100,14 @@ def break_doc(rng, d):
 
 def cases(ctx):
     rng = ctx.rng('c10')
+    for i in range(ctx.budget(16, 320)):
+        # many styled documents (regions, style chains, classes) read in pristine children under six hash seeds:
+        # an order taken from a set or a dict keyed by strings shows under some seeds only
+        ds = []
+        for k in range(10):
+            d = (docs.gen_dfxp_styled if k % 2 == 0 else docs.gen_sami_styled)(rng, f'S{ctx.shard}.{i}.{k}')
+            ds.append({'format': d['format'], 'doc': d['doc']})
+        yield {'kind': 'seed-sweep', 'docs': ds}
     for i in range(ctx.budget(160, 5000)):
         ndocs = rng.randrange(3, 6)
         ds = [gen_doc(rng, f'Q{ctx.shard}.{i}.{k}', ctx) for k in range(ndocs)]
@@ -151,6 +159,8 @@ def cases(ctx):
 
 
 def nontrivial(case):
+    if case.get('kind') == 'seed-sweep':
+        return True
     ops = case['ops']
     return len(ops) >= 3 and (any(o['op'] == 'edit' for o in ops) or sum(1 for o in ops if o.get('reuse')) >= 2)
 
@@ -187,6 +197,24 @@ def _apply_edit(cs, kind, salt):
 
 def check(case, ctx):
     import pycaption
+    if case.get('kind') == 'seed-sweep':
+        jobs = [{'op': 'read', 'reader': READER[d['format']], 'reader_kwargs': {}, 'read_kwargs': {}, 'doc': d['doc']}
+                for d in case['docs']]
+        seeds = worker.seeds_for(case, 6)
+        first = None
+        for seed in seeds:
+            ref = worker.run_jobs(jobs, hashseed=seed)
+            ctx.count('child_processes')
+            ctx.count('seed_sweep_reads', len(jobs))
+            if first is None:
+                first = ref
+                continue
+            for k, (a, b) in enumerate(zip(first, ref)):
+                if a != b:
+                    return [{'what': 'the same document reads differently under another PYTHONHASHSEED',
+                             'format': case['docs'][k]['format'], 'seeds': [seeds[0], seed],
+                             'diff': _first_diff(a.get('ok'), b.get('ok')) if 'ok' in a and 'ok' in b else [a, b]}]
+        return []
     readers = {}
     results = []       # (doc index, CaptionSet, dump at return or error, edited?)
     fails = []
@@ -255,7 +283,7 @@ def check(case, ctx):
         return fails[:3]
     jobs = [{'op': 'read', 'reader': READER[d['format']], 'reader_kwargs': d['reader_kwargs'],
              'read_kwargs': d['read_kwargs'], 'doc': d['doc']} for d in case['docs']]
-    for seed in ('1', '12345', '777'):
+    for seed in worker.seeds_for(case, 3):
         ref = worker.run_jobs(jobs, hashseed=seed)
         ctx.count('child_processes')
         for docidx, cs, at_return, edited, k in results:
